@@ -17,7 +17,7 @@ ASSUMPTIONS = {
         "operand space sampled (boundary classes x random), not closed",
     ]
 }
-REQUIRED = {"C01": ["steps_compared", "instr_cases", "prog_cases", "faults_compared", "stores_compared", "ecall_outputs_compared", "taken_transfers"]}
+REQUIRED = {"C01": ["steps_compared", "instr_cases", "prog_cases", "faults_compared", "stores_compared", "ecall_outputs_compared", "taken_transfers", "steps_after_end_checked", "prog_cases_with_caches", "exits_compared"]}
 
 
 def plan(prop, tier, seed):
@@ -53,7 +53,21 @@ def prog_case(rng):
         regs = G.soup_regs(rng)
     else:
         prog, regs = G.structured_program(rng, size=rng.randint(4, 30), aligned=rng.random() < 0.6, faults=rng.random() < 0.3)
-    return {"kind": "prog", "prog": prog, "regs": regs, "mem": G.init_mem(rng), "max_steps": 400, "via": "asm" if rng.random() < 0.25 else "direct"}
+    case = {"kind": "prog", "prog": prog, "regs": regs, "mem": G.init_mem(rng), "max_steps": 400, "via": "asm" if rng.random() < 0.25 else "direct"}
+    if rng.random() < 0.25:
+        # the ISA semantics do not depend on the cache configuration: same lockstep comparison with caches on
+        # (programs whose accesses stay within one word - crossing accesses are rejected by a data cache, see C03)
+        from .cache import rand_cfg
+
+        if k < 0.5:
+            case["prog"] = G.soup_program(rng, rng.randint(1, 24), aligned=True)
+        else:
+            case["prog"], case["regs"] = G.structured_program(rng, size=rng.randint(4, 30), aligned=True, faults=False)
+        case["dcache"] = rand_cfg(rng, small=True)
+        if rng.random() < 0.5:
+            ic = rand_cfg(rng, small=True)
+            case["icache"] = {x: ic[x] for x in ("ib", "bb", "assoc", "policy", "pen")}
+    return case
 
 
 def directed_cases():
@@ -118,7 +132,7 @@ def _cmp_state(sim, ref, res, case, where, check_mem=None):
         m = sim.state.memory
         for a in check_mem:
             if a >= 0x4000:
-                got = int(m.read_byte(a))
+                got = int(m.read_byte(a, False))
                 if got != ref.mem.b.get(a, 0):
                     bad.append("mem[%#x] real=%#x ref=%#x" % (a, got, ref.mem.b.get(a, 0)))
                     break
@@ -129,14 +143,22 @@ def _cmp_state(sim, ref, res, case, where, check_mem=None):
 
 
 def _full_mem(sim, ref):
-    real = {a: int(v) for a, v in sim.state.memory.memory_file.items() if int(v)}
+    if sim.state.memory.get_cache_stats() is not None:
+        from .pipe import mem_image
+
+        real = mem_image(sim, ref.mem.b.keys())
+    else:
+        real = {a: int(v) for a, v in sim.state.memory.memory_file.items() if int(v)}
     return real == ref.mem.nonzero(), real
 
 
 def run_case(prop, case, res):
     from architecture_simulator.simulation.runtime_errors import InstructionExecutionException
 
-    sim = make_riscv("single")
+    cached = bool(case.get("dcache"))
+    sim = make_riscv("single", dcache=case.get("dcache"), icache=case.get("icache"))
+    if cached:
+        res.count("prog_cases_with_caches")
     if case["kind"] == "instr":
         d = case["instr"]
         addr = case["addr"]
@@ -234,6 +256,17 @@ def run_case(prop, case, res):
     if not ok:
         diff = sorted(a for a in set(real) | set(ref.mem.nonzero()) if real.get(a, 0) != ref.mem.b.get(a, 0))
         res.violation("C01", "final-memory", "memory differs at %s" % [(hex(a), real.get(a, 0), ref.mem.b.get(a, 0)) for a in diff[:4]], case)
+    if ref.done() and sim.is_done():
+        # execution has ended: a further step() executes nothing
+        before = (real_regs(sim), sim.state.program_counter, sim.state.output, sim.state.exit_code, _full_mem(sim, ref)[1], sim.state.performance_metrics.instruction_count)
+        for _ in range(2):
+            sim.step()
+        after = (real_regs(sim), sim.state.program_counter, sim.state.output, sim.state.exit_code, _full_mem(sim, ref)[1], sim.state.performance_metrics.instruction_count)
+        res.count("steps_after_end_checked")
+        if after != before:
+            names = ["registers", "pc", "output", "exit code", "memory", "instruction count"]
+            res.violation("C01", "executes-after-end", "step() after the end of execution changed %s" % [names[i] for i in range(6) if before[i] != after[i]], case)
+            return
     if ref.done():
         res.count("runs_to_completion")
     else:
